@@ -467,6 +467,29 @@ func runC06(c *Ctx) {
 		}
 	}
 
+	// calibration: the model treats /w/{id}/z and /w/{name}/z as mutually exclusive only if this router,
+	// used sequentially with the same neighbours, refuses the second one (the property fixes that only
+	// for a router with a single other route)
+	twinsExclusive := false
+	{
+		probe := mon.NewEnv().NewRouter("probe", mux.WithLock(true), mux.WithInterceptor(yieldDigits, "yield"))
+		for _, u := range c06Untouched {
+			probe.Handle(u.pat, mon.NewEnv().NewHnd(mon.KRoute, u.pat), nil, "GET")
+		}
+		ok1, _ := tryHandle(probe, "/w/{id}/z", mon.NewEnv().NewHnd(mon.KRoute, ""), []string{"GET"})
+		ok2, _ := tryHandle(probe, "/w/{name}/z", mon.NewEnv().NewHnd(mon.KRoute, ""), []string{"GET"})
+		twinsExclusive = ok1 && !ok2
+	}
+	toggled := c06Toggled
+	if !twinsExclusive {
+		toggled = nil
+		for _, t := range c06Toggled {
+			if t.group == "" {
+				toggled = append(toggled, t)
+			}
+		}
+		c.Class("twin_group_not_modelled")
+	}
 	writers, readers := r.Range(2, 4), r.Range(4, 8)
 	opsPerWriter, opsPerReader := r.Range(30, 70), r.Range(40, 90)
 	var wg sync.WaitGroup
@@ -480,9 +503,9 @@ func runC06(c *Ctx) {
 			for i := 0; i < opsPerWriter; i++ {
 				var t cPattern
 				if lr.Chance(1, 2) { // owned by this writer
-					t = c06Toggled[(lr.Intn(len(c06Toggled)/writers+1)*writers+w)%len(c06Toggled)]
+					t = toggled[(lr.Intn(len(toggled)/writers+1)*writers+w)%len(toggled)]
 				} else { // contended
-					t = ref.Pick(lr, c06Toggled)
+					t = ref.Pick(lr, toggled)
 				}
 				switch k := lr.Intn(20); {
 				case k < 10:
@@ -522,7 +545,7 @@ func runC06(c *Ctx) {
 						x.r.Prefix("/p/").Clean()
 					}()
 					ret := x.clock.Add(1)
-					for _, q := range c06Toggled {
+					for _, q := range toggled {
 						if strings.HasPrefix(q.pat, "/p/") {
 							x.record(cEvent{Client: w, In: cInput{Op: "clean", Pat: q.pat}, Out: cOutput{Panic: pan}, Call: call, Return: ret, Open: pan != ""})
 						}
@@ -549,7 +572,7 @@ func runC06(c *Ctx) {
 					o := mon.Do(x.r, mon.Req{Method: m, Path: path})
 					c06CheckUntouched(x, u, m, v, path, o)
 				case k < 16:
-					t := ref.Pick(lr, c06Toggled)
+					t := ref.Pick(lr, toggled)
 					m := ref.Pick(lr, []string{"GET", "GET", "POST", "HEAD", "OPTIONS", "PUT", "DELETE", "BOGUS"})
 					x.serve(client, t, m, fmt.Sprintf("%d", 1000000+uniq.Add(1)))
 				case k < 18:
@@ -565,7 +588,7 @@ func runC06(c *Ctx) {
 					}()
 					ret := x.clock.Add(1)
 					if routes != nil {
-						for _, q := range c06Toggled {
+						for _, q := range toggled {
 							ms := "-"
 							if l, ok := routes[q.pat]; ok {
 								ms = strings.Join(mon.SortedCopy(l), ",")
@@ -595,7 +618,7 @@ func runC06(c *Ctx) {
 						x.violate(fmt.Sprintf("strict URL of untouched route %q = %q, %v (expected %q)", u.pat, got, err, want))
 					}
 				default:
-					t := ref.Pick(lr, c06Toggled)
+					t := ref.Pick(lr, toggled)
 					strict := lr.Chance(2, 3)
 					params := map[string]string{"id": "7", "n": "7", "name": "7"}
 					if strict {
